@@ -203,6 +203,11 @@ pub fn pipeline_opt(bytes: &[u8], key: u64, st: &mut Stats, light: bool) -> Chec
     if meta.4 > 0 && reached.get() {
         st.nontrivial(fnv64(bytes));
     }
+    if !light && key % 4 == 0 {
+        // the iterator adaptors and sections must be as total as plain iteration
+        super::c06::check_iter_api(bytes, st).map_err(|f| if f.sig == "parse-panic" { Fail::new("pipeline-panic", f.msg) } else { f })?;
+        super::c06::check_section(bytes, key, st).map_err(|f| if f.sig == "parse-panic" { Fail::new("pipeline-panic", f.msg) } else { f })?;
+    }
     Ok(())
 }
 
